@@ -8,6 +8,7 @@ from ..model import AnalysisError, norm, walk_live, parent, ancestors, first_lin
 from ..report import RuleResult, ModSite
 from .. import walk as W
 from .. import fresh as F
+from ..fresh import MEMO_FIELDS as A_MEMO_FIELDS
 
 _cache = {}
 
@@ -623,3 +624,95 @@ def rule_global_state(P):
                           construct=f"@{d} {f.qual}")
     r.min_instances = 5
     return r
+
+
+# entry points whose answer is specified for the grammar *as it is now*: the rule list of a CFG can still grow (CFG.add
+# is public and resets nothing), so nothing they read may be a per-object memo of that rule list
+FRESH_READERS = ["cfg.py::CFG.agenda", "cfg.py::CFG.naive_bottom_up", "cfg.py::CFG.treesum", "cfg.py::CFG.dependency_graph"]
+_MEMO_DECOS = {"cached_property", "cache", "lru_cache", "memoize"}
+
+
+def rule_memo_stale(P, entries=FRESH_READERS):
+    r = RuleResult(
+        "MEMO-STALE",
+        "the total-weight evaluators (agenda, naive_bottom_up, treesum) and everything they call on the same grammar "
+        "(dependency_graph, _bottom_up_step, ...) read no per-object memo of the rule list - no cached_property / "
+        "functools.cache member and no lazily filled `self._x` - unless CFG.add resets it: CFG.add only appends, so a memo "
+        "filled before the grammar grew would schedule / evaluate the old rule set",
+        "totals are computed from the rules the grammar has now",
+    )
+    cls = P.cls("cfg.py", "CFG")
+    add = cls.methods.get("add")
+    reset = set()
+    if add is not None:
+        for n in walk_live(add.node):
+            # self.__dict__.pop('x', None) / del self.x / self.x = None
+            if isinstance(n, ast.Call) and isinstance(n.func, ast.Attribute) and n.func.attr == "pop" and "__dict__" in norm(n.func.value) and n.args \
+                    and isinstance(n.args[0], ast.Constant):
+                reset.add(n.args[0].value)
+            if isinstance(n, ast.Delete):
+                for t in n.targets:
+                    if isinstance(t, ast.Attribute) and W.is_name(t.value, "self"):
+                        reset.add(t.attr)
+            if isinstance(n, ast.Assign):
+                for t in n.targets:
+                    if isinstance(t, ast.Attribute) and W.is_name(t.value, "self"):
+                        reset.add(t.attr)
+    seen, todo = set(), []
+    for q in entries:
+        if not P.has_func(q):
+            raise AnalysisError(f"{q} not found")
+        todo.append((P.func(q), (q.split("::")[1],)))
+    n_reads = 0
+    stores, loads = [], set()
+    while todo:
+        f, path = todo.pop()
+        if f.qual in seen:
+            continue
+        seen.add(f.qual)
+        r.looked_at(f)
+        self_name = f.params[0] if f.params else "self"
+        # lazily filled field: `if self._x is None: self._x = ...` / `self._x` assigned in this reader
+        for n in walk_live(f.node, into_nested=True):
+            if isinstance(n, ast.Assign) and f.name != "__init__":
+                for t in n.targets:
+                    if isinstance(t, ast.Attribute) and W.is_name(t.value, self_name) and t.attr not in reset:
+                        stores.append((f, n, t.attr, path))
+            if isinstance(n, ast.Attribute) and W.is_name(n.value, self_name) and isinstance(n.ctx, ast.Load):
+                loads.add(n.attr)
+            if isinstance(n, ast.Call) and isinstance(n.func, ast.Name) and n.func.id == "getattr" and len(n.args) >= 2 and W.is_name(n.args[0], self_name) \
+                    and isinstance(n.args[1], ast.Constant):
+                loads.add(n.args[1].value)
+            if not (isinstance(n, ast.Attribute) and W.is_name(n.value, self_name) and isinstance(n.ctx, ast.Load)):
+                continue
+            lk = cls.lookup(n.attr)
+            m = lk[1] if lk is not None and lk[0] == "method" else None
+            if m is None:
+                if n.attr in A_MEMO_FIELDS and n.attr not in reset:
+                    r.add(f, n, False, f"`{norm(n)}` is a per-object memo read on the path {' → '.join(path)}")
+                continue
+            n_reads += 1
+            memo = set(m.decorators) & _MEMO_DECOS
+            if memo:
+                ok = n.attr in reset
+                r.add(f, n, ok, "" if ok else f"`{norm(n)}` is memoised per object (@{sorted(memo)[0]} on {m.qual.split('::')[1]}) and is read on the path "
+                      f"{' → '.join(path)}; CFG.add does not reset it, so after the grammar grows the evaluator keeps using the value computed "
+                      f"for the old rule set", slots=dict(path=list(path), member=n.attr))
+                continue
+            par = parent(n)
+            called = isinstance(par, ast.Call) and par.func is n
+            if (called or m.is_property) and len(path) < 6:
+                todo.append((m, path + (m.name,)))
+                r.add(f, n, True, slots=dict(path=list(path), member=n.attr, kind="recomputed on every call"), nontrivial=False)
+    for f, n, attr, path in stores:
+        # a value stored on the grammar and read back by the evaluators is a lazily filled memo (a store nobody reads is a diagnostic)
+        if attr in loads:
+            r.add(f, n, False, f"`{first_line(n)}` stores a result on the grammar object on the path {' → '.join(path)} and the evaluators read "
+                  f"`self.{attr}` back; CFG.add does not reset it, so the stored value is reused after the grammar has grown")
+    if n_reads < 3:
+        raise AnalysisError("MEMO-STALE: the evaluators' reads of their own grammar were not found")
+    r.min_instances = 3
+    return r
+
+
+
